@@ -13,7 +13,7 @@
 Require Import Cherab.Common.Qx.
 From Coq Require Import String.
 Require Import Cherab.Model.C15_Groups Cherab.Model.C15_Table.
-Require Import Cherab.Proofs.C15_Setters Cherab.Proofs.C15_Members.
+Require Import Cherab.Proofs.C15_Setters Cherab.Proofs.C15_Members Cherab.Proofs.C15_Slices.
 Open Scope string_scope.
 Open Scope list_scope.
 Open Scope Z_scope.
@@ -124,21 +124,36 @@ Theorem C15_index_lookup :
 Proof. exact index_lookup. Qed.
 Print Assumptions C15_index_lookup.
 
-(* retrieval by slice, every class (BolometerCamera included since the fix c11e2e2).  PARTIAL: step 1
-   only.  The slice is a contiguous run of members in member order; for bounds inside the group it
-   is exactly the members lo .. hi-1. *)
-Theorem C15_slice_lookup_partial :
+(* retrieval by slice, every class, EVERY step (replaces the former C15_slice_lookup_partial, which
+   covered step 1 only; its two clauses are clauses 1 and 2 here, unchanged).
+   1-2: a plain slice [lo:hi] is a contiguous run of members in member order; for bounds inside the
+        group it is exactly the members lo .. hi-1.
+   3:   step 0 raises ValueError.
+   4:   for any other step the answer is the members at slice(lo,hi,step).indices(n), one each, in that
+        order: every index is inside the group, the indices are start, start+step, ... (by definition of
+        slice_indices), and no index of range(start, stop, step) is missed.
+   5:   step 1 written explicitly is the plain slice. *)
+Theorem C15_slice_lookup :
   forall c g,
   (forall lo hi, getitem c (KSlice lo hi) g = RMems (map mid (slice_of g lo hi))
                  /\ exists pre post, g = pre ++ slice_of g lo hi ++ post)
   /\ (forall lo hi, 0 <= lo -> lo <= hi -> hi <= Z.of_nat (List.length g) ->
         Z.of_nat (List.length (slice_of g (Some lo) (Some hi))) = hi - lo
         /\ forall j, lo <= j < hi ->
-             nth_error (slice_of g (Some lo) (Some hi)) (Z.to_nat (j - lo)) = nth_error g (Z.to_nat j)).
-Proof.
-  intros c g; split; [intros; now apply slice_lookup | intros; split; [now apply slice_length | intros; now apply slice_nth]].
-Qed.
-Print Assumptions C15_slice_lookup_partial.
+             nth_error (slice_of g (Some lo) (Some hi)) (Z.to_nat (j - lo)) = nth_error g (Z.to_nat j))
+  /\ (forall lo hi, getitem c (KSliceStep lo hi 0) g = RErr EValue)
+  /\ (forall lo hi step, step <> 0 ->
+        let n := Z.of_nat (List.length g) in
+        let idx := slice_indices n lo hi step in
+        getitem c (KSliceStep lo hi step) g = RMems (map mid (slice_step g lo hi step))
+        /\ Forall (fun i => 0 <= i < n) idx
+        /\ map Some (slice_step g lo hi step) = map (fun i => nth_error g (Z.to_nat i)) idx
+        /\ (forall i, (let (a, b) := slice_start_stop n lo hi step in
+                       if 0 <? step then a <= i < b /\ (i - a) mod step = 0
+                       else b < i <= a /\ (a - i) mod (- step) = 0) -> In i idx))
+  /\ (forall lo hi, slice_step g lo hi 1 = slice_of g lo hi).
+Proof. exact slice_lookup_full. Qed.
+Print Assumptions C15_slice_lookup.
 
 (* retrieval by unique name (every class); an absent name raises ValueError; in the Observer0DGroup
    family a name carried by two members raises ValueError as well *)
@@ -153,6 +168,32 @@ Proof.
   intros c s; repeat split; intros; [now apply unique_name_lookup | now apply absent_name_lookup | now apply duplicate_name_lookup].
 Qed.
 Print Assumptions C15_unique_name_lookup.
+
+(* list(group): the iteration protocol (for the Observer0DGroup family a loop over __getitem__(0),
+   __getitem__(1), ... ended by IndexError; BolometerCamera.__iter__) yields every member once, in order *)
+Theorem C15_iteration_yields_members :
+  forall c g, iterate c g = RMems (map mid g).
+Proof. exact iterate_members. Qed.
+Print Assumptions C15_iteration_yields_members.
+
+(* observers given to the constructor (a loop of add_observer) become members in the order given *)
+Theorem C15_constructor_adds_in_order :
+  forall c e ids g, Forall (addable c e) ids ->
+  exists ms, exec c e g (map OAdd ids) = g ++ ms /\ map mid ms = ids
+             /\ Forall (fun m => mparent m = gid /\ mobs m = 0 /\ accepts c (mtype m) = true) ms.
+Proof. exact construct_adds_in_order. Qed.
+Print Assumptions C15_constructor_adds_in_order.
+
+(* assigning the member list (observers / sight_lines / foil_detectors): the members become exactly the
+   list given, in its order; a former member keeps its values and observe count, a new one starts fresh,
+   all have the group as parent; a container of the wrong kind is a TypeError and changes nothing *)
+Theorem C15_member_list_assignment :
+  forall c e g k ids,
+  (forall g', seq_kind_ok c k = true -> all_accepted c e ids = true -> members_for e g ids = Some g' ->
+     step c e g (OSetMembers k ids) = (g', ROk) /\ map mid g' = ids /\ Forall (kept_or_fresh e g) g')
+  /\ (seq_kind_ok c k = false -> step c e g (OSetMembers k ids) = (g, RErr EType)).
+Proof. intros c e g k ids; split; [intro g'; apply setmembers_accepted | apply setmembers_bad_kind]. Qed.
+Print Assumptions C15_member_list_assignment.
 
 (* after ANY history of add / member-list assignment / attribute assignment (rename = assignment of
    names) / read / lookup / observe operations on an initially empty group, every member's
